@@ -8,6 +8,7 @@
   `qqSubst` / `qqElems` (the specification: a walk over the template that builds the value).
 -/
 import LispModel.Proofs.QQEval
+import LispModel.Proofs.SeedLaws
 namespace LispModel.Props.C12
 open LispModel LispModel.Core LispModel.QQ
 
@@ -258,5 +259,56 @@ private def pRec : Val :=
         L [S "if", L [S "=", S "n", I 0], I 0, qq (L [S "cnt", uq (L [S "-", S "n", I 1])])]]],
      L [S "cnt", I 3]]
 example : obs (eval 120 initState 0 pRec 0) = some ("0", []) := by decide +kernel
+
+/-! ## laws added after the seeded changes of rounds 3–5 -/
+open LispModel.Proofs.SeedLaws (Sy Ls Vc Nm runTop okIs traceEq)
+
+/-- a macro named like a special form wins: the head symbol is looked up as a macro BEFORE the special
+    forms are recognised.  If `s` is bound (in scope) to a macro closure — whatever `s` is, in particular
+    `let`, `if`, `try`, `def`, `fn` — then (a) the form is expanded by applying the macro to the operand
+    FORMS, (b) an error of the expansion is the error of the form, (c) otherwise the result is that of
+    evaluating the expansion (`macro_call_eq_expansion`, which has no side condition on the name). -/
+theorem macro_named_like_special_form_wins {F : Nat} {st : State} {env d : Nat} {s : String}
+    {p q fp : Option Pos} {args : List Val} {ps b : Val} {fe : Nat}
+    (hc : st.cancelAt = none) (h : st.get env s = some (.fn ps b fe true fp)) :
+    (macroexpand (F+1) (LispModel.tick st) env (.list (.sym s p :: args) q) d =
+      match bindParams ps args with
+      | .error e => (.err e, LispModel.tick st)
+      | .ok data =>
+        match eval F ((LispModel.tick st).newScope fe data).1 ((LispModel.tick st).newScope fe data).2 b (d+1) with
+        | (.ok ast', st2) => macroexpand F st2 env ast' d
+        | r => r) ∧
+    (∀ e s1, macroexpand (F+1) (LispModel.tick st) env (.list (.sym s p :: args) q) d = (.err e, s1) →
+      evalLoop (F+2) st env (.list (.sym s p :: args) q) d = (.err e, s1)) ∧
+    (∀ ast' s1 st0, macroexpand (F+1) (LispModel.tick st) env (.list (.sym s p :: args) q) d = (.ok ast', s1) →
+      st0.poll = (false, s1) →
+      evalLoop (F+2) st env (.list (.sym s p :: args) q) d = evalLoop (F+2) st0 env ast' d) :=
+  Proofs.SeedLaws.C12.macro_named_like_special_form_wins hc h
+
+/-- `(do (defmacro let (fn (a b) (list 'trace! b))) (let 1 2))` ⇒ 2 with the effect 2 -/
+theorem macro_named_let_example :
+    (let r := runTop (Ls [Sy "do",
+        Ls [Sy "defmacro", Sy "let", Ls [Sy "fn", Ls [Sy "a", Sy "b"], Ls [Sy "list", Ls [Sy "quote", Sy "trace!"], Sy "b"]]],
+        Ls [Sy "let", Nm 1, Nm 2]]);
+     okIs r (Nm 2) && traceEq r [Nm 2]) = true :=
+  Proofs.SeedLaws.C12.macro_named_let_example
+
+/-- `(do (defmacro if (fn (c a b) b)) (if true 1 2))` ⇒ 2 -/
+theorem macro_named_if_example :
+    okIs (runTop (Ls [Sy "do", Ls [Sy "defmacro", Sy "if", Ls [Sy "fn", Ls [Sy "c", Sy "a", Sy "b"], Sy "b"]],
+      Ls [Sy "if", .bool true, Nm 1, Nm 2]])) (Nm 2) = true :=
+  Proofs.SeedLaws.C12.macro_named_if_example
+
+/-- ``(let (v [2 3]) `(~@v))`` is the LIST `(2 3)` -/
+theorem splice_in_list_is_list :
+    okIs (runTop (Ls [Sy "let", Ls [Sy "v", Vc [Nm 2, Nm 3]],
+      Ls [Sy "quasiquote", Ls [Ls [Sy "splice-unquote", Sy "v"]]]])) (Ls [Nm 2, Nm 3]) = true :=
+  Proofs.SeedLaws.C12.splice_in_list_is_list
+
+/-- ``(let (v [2 3]) `[~@v])`` is the VECTOR `[2 3]` -/
+theorem splice_in_vector_is_vector :
+    okIs (runTop (Ls [Sy "let", Ls [Sy "v", Vc [Nm 2, Nm 3]],
+      Ls [Sy "quasiquote", Vc [Ls [Sy "splice-unquote", Sy "v"]]]])) (Vc [Nm 2, Nm 3]) = true :=
+  Proofs.SeedLaws.C12.splice_in_vector_is_vector
 
 end LispModel.Props.C12
